@@ -257,15 +257,29 @@ theorem parse_pkt (data : Bytes) (now : Ms) :
 
 /-! ### what is assumed of the uninterpreted components -/
 
-/-- Hypotheses on the downstream components, relative to an invariant `I` of their state and a
-predicate `S` on the answer sets they hand to the encoder. -/
-structure DownOK (D : Down σ ω) (I : σ → Prop) (S : QA → Prop) : Prop where
-  /-- the record manager and the listeners it calls accept every message the decoder can produce -/
-  ingest : ∀ d k, I d → PktOK k → ∃ d' o, D.ingest d k = .ok (d', o) ∧ I d'
-  /-- the answer computation is total on decoder products; its answer sets satisfy `S` -/
-  answer : ∀ d ks u, I d → ks ≠ [] → (∀ k ∈ ks, PktOK k) →
+/-- **component obligation 1** — the record manager and every listener it calls accept every message
+the decoder can produce, and keep the downstream invariant -/
+def IngestOK (D : Down σ ω) (I : σ → Prop) : Prop :=
+  ∀ d k, I d → PktOK k → ∃ d' o, D.ingest d k = .ok (d', o) ∧ I d'
+
+/-- **component obligation 2** — the answer computation is total on decoder products, keeps the
+invariant, and its answer sets satisfy `S` -/
+def AnswerOK (D : Down σ ω) (I : σ → Prop) (S : QA → Prop) : Prop :=
+  ∀ d ks u, I d → ks ≠ [] → (∀ k ∈ ks, PktOK k) →
     ∃ d' qa, D.answer d ks u = .ok (d', qa) ∧ I d' ∧ ∀ q, qa = some q → S q
-  enqueue : ∀ d t q, I d → I (D.enqueue d t q).1
+
+/-- **component obligation 3** — queueing the aggregated answers keeps the invariant -/
+def EnqueueOK (D : Down σ ω) (I : σ → Prop) : Prop :=
+  ∀ d t q, I d → I (D.enqueue d t q).1
+
+/-- Hypotheses on the downstream components, relative to an invariant `I` of their state and a
+predicate `S` on the answer sets they hand to the encoder: the conjunction of the three component
+obligations.  `Proofs/SurviveComp.lean` discharges them for the composition of the C03/C04/C05/C06
+models, down to the residue named there. -/
+structure DownOK (D : Down σ ω) (I : σ → Prop) (S : QA → Prop) : Prop where
+  ingest : IngestOK D I
+  answer : AnswerOK D I S
+  enqueue : EnqueueOK D I
 
 /-- `S`-answer sets can be sent: together with the echo of *any* questions of a decoder product
 (legacy unicast) and on their own (multicast) the encoder returns datagrams -/
